@@ -345,3 +345,100 @@ def run_wl_cell(ctx, l, L, sep, cap, limit=6000):
         order, titles, rest = parse_pre(a) if a else (None, None, None)
         out.append((tp, chargen.parse_password(rest) if rest else None, order, titles, lines[k].split(" ", 1)[1], a))
     return out
+
+
+# ---------------------------------------------------------------- an independent restatement of WLRecipe.Generate
+
+def py_draw(n, words, pos):
+    """the unbiased bounded draw (C01) on a tape of raw words: (index or None when the tape is exhausted, next position)"""
+    while pos < len(words):
+        w = words[pos]
+        pos += 1
+        if n & (n - 1) == 0:
+            return w & (n - 1), pos
+        if w < chargen.discard(n):
+            return w % n, pos
+    return None, pos
+
+
+def py_accept(r, budget):
+    """the pre-flight decision of a character recipe as documented (exact arithmetic); None when float-borderline"""
+    T, fn, fd = budget
+    p = r.success_probability()
+    if p is None or p <= 0 or T < 1:
+        return False
+    if chargen.float_decision_band(r, budget):
+        return None
+    from fractions import Fraction
+    q = 1 - p
+    if q == 0:
+        return True
+    import math
+    return T * math.log(float(q)) <= math.log(fn / fd)
+
+
+def py_sep_call(sep, budget, words, pos):
+    """one call of the separator function as documented: (value bytes, next position) | (None, pos) when undecidable here"""
+    k, v = sep
+    if k in ("char", "const"):
+        return v.encode(), pos
+    r = sep_recipe(sep)
+    if r is None:
+        return b"", pos
+    if r.length < 1 or not r.alphabet():
+        return b"", pos
+    acc = py_accept(r, budget)
+    if acc is None:
+        return None, pos
+    if not acc:
+        return b"", pos
+    kind, cand, nbytes = chargen.simulate(r, budget, words[pos:])
+    if kind == "ok":
+        return "".join(cand).encode(), pos + nbytes // 4
+    if kind == "exhausted":
+        return b"", pos + nbytes // 4
+    return None, pos
+
+
+def py_wl_generate(order, tmap, L, sep, cap, budget, words):
+    """the token sequence the documentation prescribes for this tape (list of (value, type)), or None when the reference does
+    not decide the case (tape exhausted, float-borderline separator recipe).  order: the list's words in slice order;
+    tmap: strings.Title on them."""
+    n = len(order)
+    if n == 0 or L < 1:
+        return None
+    pos = 0
+    capped = set()
+    if cap == "first":
+        capped = {0}
+    elif cap == "all":
+        capped = set(range(L))
+    elif cap == "one":
+        w, pos = py_draw(L, words, pos)
+        if w is None:
+            return None
+        capped = {w}
+    elif cap == "random":
+        for i in range(L):
+            b, pos = py_draw(2, words, pos)
+            if b is None:
+                return None
+            if b == 1:
+                capped.add(i)
+    toks = []
+    for i in range(L):
+        wi, pos = py_draw(n, words, pos)
+        if wi is None:
+            return None
+        w = order[wi]
+        if i in capped:
+            w = tmap.get(w, w)
+        if w:
+            toks.append((w, 1))
+        if i < L - 1:
+            sv, pos = py_sep_call(sep, budget, words, pos)
+            if sv is None:
+                return None
+            if sv:
+                toks.append((sv, 0))
+    return toks
